@@ -265,13 +265,14 @@ impl Json {
     /// [mdn]: https://developer.mozilla.org/en-US/docs/Web/JavaScript/Reference/Global_Objects/JSON/parse
     pub(crate) fn parse(_: &JsValue, args: &[JsValue], context: &mut Context) -> JsResult<JsValue> {
         // 1. Let jsonString be ? ToString(text).
-        let json_string = args
+        let json_js_string = args
             .first()
             .cloned()
             .unwrap_or_default()
-            .to_string(context)?
-            .to_std_string()
-            .map_err(|e| JsNativeError::syntax().with_message(e.to_string()))?;
+            .to_string(context)?;
+        // The grammar is checked on a UTF-8 copy. An unpaired surrogate becomes U+FFFD there: both
+        // are legal inside a JSON string and illegal anywhere else.
+        let json_string = json_js_string.to_std_string_lossy();
 
         // 2. Parse ! StringToCodePoints(jsonString) as a JSON text as specified in ECMA-404.
         //    Throw a SyntaxError exception if it is not a valid JSON text as defined in that specification.
@@ -293,10 +294,13 @@ impl Json {
         let has_reviver = args.get_or_undefined(1).is_callable();
 
         // 3. Let scriptString be the string-concatenation of "(", jsonString, and ");".
-        let script_string = format!("({json_string});");
+        let mut script_string = Vec::with_capacity(json_js_string.len() + 3);
+        script_string.push(u16::from(b'('));
+        script_string.extend(json_js_string.iter());
+        script_string.extend([u16::from(b')'), u16::from(b';')]);
 
         // 4-10. Parse and evaluate the script
-        let source = Source::from_bytes(&script_string);
+        let source = Source::from_utf16(&script_string);
         let mut parser = Parser::new(source);
         parser.set_json_parse();
 
